@@ -655,6 +655,13 @@ struct Runner
           bool was_stale = sl.stale;
           if (was_stale)
             c.probe("owner_released_after_destroy_sandbox");
+          // the backend may refuse an unregistration (fault F13): the call aborts and nothing has changed - the owner still
+          // holds the registration, so that it can be given up later
+          bool refuse = false;
+          if constexpr (std::is_same_v<Sbx, SimSbx>)
+            refuse = op.kind == K_UNREG && sl.live && !was_stale && ((uint64_t)op.a[2] % 5) == 0;
+          if (refuse)
+            g_fault.unregister_fail = 1;
           Outcome o = attempt([&] {
             if (op.kind == K_UNREG) {
               if (sl.a)
@@ -670,6 +677,15 @@ struct Runner
             }
           });
           c.ev("%s owner %zu -> %s", opn, si, oname(o));
+          if (refuse) {
+            bool consumed = g_fault.unregister_fail == 0;
+            g_fault.clear();
+            if (consumed) {
+              if (o != ABORT)
+                c.violate("C13", "refused_unregistration_not_reported@unreg", "the backend refused, the call returned %s", oname(o));
+              break; // the model keeps the registration; the invariants below compare it with the owner and the backend table
+            }
+          }
           if (o != OK) {
             c.violate("C13", std::string(was_stale ? "releasing_owner_after_destroy_sandbox_not_harmless@" : "release_of_owner_aborts@") + opn, "%s", g_last_abort_msg.c_str());
             break;
